@@ -139,7 +139,7 @@ R.pred("tolist_unit_weights_no_mode")(lambda c: c.get("mode") is None and all(w 
 R.pred("tolist_mode_or_unit")(lambda c: c.get("mode") is not None or all(w == 1.0 for w in c["weights"]))
 
 
-@op("ktensor/tolist", g_tolist, quick=80, thorough=3000)
+@op("ktensor/tolist", g_tolist, quick=80, thorough=2000)
 def _(ctx, c):
     X = K(c)
     k_labels(ctx, c)
@@ -330,7 +330,7 @@ def g_kttv(draw, tier):
 R.pred("ttv_leaves_a_mode")(lambda c: len(R.dims_used(c["d"], len(c["shape"]))) < len(c["shape"]))
 
 
-@op("ktensor/ttv", g_kttv, quick=80, thorough=3000)
+@op("ktensor/ttv", g_kttv, quick=80, thorough=2000)
 def _(ctx, c):
     X = K(c)
     ops, V, kw = CT.ttv_args(ctx, c, c["shape"])
@@ -763,7 +763,7 @@ def g_sadd(draw, tier):
     return c
 
 
-@op("sumtensor/add", g_sadd, quick=80, thorough=3000)
+@op("sumtensor/add", g_sadd, quick=80, thorough=2000)
 def _(ctx, c):
     X = SUM(c)
     s_labels(ctx, c)
@@ -834,7 +834,7 @@ R.pred("sum_has_ktensor_part_and_ttv_leaves_a_mode")(
 )
 
 
-@op("sumtensor/ttv", g_sttv, quick=80, thorough=3000)
+@op("sumtensor/ttv", g_sttv, quick=80, thorough=2000)
 def _(ctx, c):
     X = SUM(c)
     s_labels(ctx, c)
